@@ -157,7 +157,7 @@ def check_url_maps(chk, prog, model):
     n = 0
     bad = 0
 
-    def dec(src):
+    def dec(src, real=False):
         calls = []
 
         def h_b64(it, st, args, node):
@@ -175,29 +175,34 @@ def check_url_maps(chk, prog, model):
                 txt = ''.join(chars)
             calls.append((txt, args[1]))
             return [(st, Int(1))]
-        it = Interp(prog, unit, model=model, hooks={'base64_decode': h_b64})
+        it = Interp(prog, unit, model=model, hooks={} if real else {'base64_decode': h_b64})
         st = State()
         rl = ('obj', 'ret_len')
         res = it.run('jwt_base64uri_decode', [Str(src), Ref(rl)], st)
         return res, calls
     # length gate and padding
-    for ln in range(0, 10):
+    for ln in range(0, 14):
         n += 1
-        src = 'QUJD' * 3
+        src = 'QUJD' * 4
         src = src[:ln]
-        res, calls = dec(src)
         if ln % 4 == 1:
-            if calls or any(r[1] is not NULL and not (isinstance(r[1], Int) and r[1].v == 0) for r in res):
+            # rejected by whichever layer: the wrapper and the decoder are evaluated together on the concrete text
+            res, calls = dec(src, real=True)
+            if not res:
+                raise AnalysisBroken('jwt_base64uri_decode with the decoder inlined produced no outcome for length %d' % ln)
+            if any(r[1] is not NULL and not (isinstance(r[1], Int) and r[1].v == 0) for r in res):
                 bad += 1
                 chk.add(Finding('C11.length-gate', unit, 'jwt_base64uri_decode', 'len%4==1',
-                                'text of length %d (1 mod 4) is not rejected before decoding' % ln))
-        else:
-            pad = {0: 0, 2: 2, 3: 1}[ln % 4]
-            want = src + '=' * pad
-            if len(calls) != 1 or calls[0][0] != want or not (isinstance(calls[0][1], Int) and calls[0][1].v == len(want)):
-                bad += 1
-                chk.add(Finding('C11.length-gate', unit, 'jwt_base64uri_decode', 'padding[%d]' % (ln % 4),
-                                'text %r is handed to the decoder as %r' % (src, calls)))
+                                'text of length %d (1 mod 4) is decoded (%r) instead of being rejected: neither the wrapper nor '
+                                'base64_decode refuses it' % (ln, [r[1] for r in res if r[1] is not NULL][:1])))
+            continue
+        res, calls = dec(src)
+        pad = {0: 0, 2: 2, 3: 1}[ln % 4]
+        want = src + '=' * pad
+        if len(calls) != 1 or calls[0][0] != want or not (isinstance(calls[0][1], Int) and calls[0][1].v == len(want)):
+            bad += 1
+            chk.add(Finding('C11.length-gate', unit, 'jwt_base64uri_decode', 'padding[%d]' % (ln % 4),
+                            'text %r is handed to the decoder as %r' % (src, calls)))
     # URL alphabet -> standard alphabet
     for src, want in (('-___', '+///'), ('A-B_', 'A+B/'), ('+/+/', '+/+/')):
         n += 1
